@@ -513,3 +513,82 @@ func cancelledContextEscapes(f *ssa.Function) []ssa.Instruction {
 	}
 	return out
 }
+
+// ruleC17ClientPerRegion: every regional KMS client is created for the region of its map entry: the config handed to the
+// client factory has its Region set, unconditionally, to the same value that the client is registered under.
+func ruleC17ClientPerRegion(c *Ctx) {
+	u := c.U1
+	c.rule("C17.client-per-region", "aws-v2 Builder: on every path to the client factory call the config's Region field has been assigned the range key that also becomes regionalClient.Region (no condition may leave a caller-supplied region in place for another region's client)", 1)
+	n := 0
+	for _, f := range u.RepoFuncs {
+		if f.Pkg == nil || f.Pkg.Pkg.Path() != pkgKmsV2 || f.Blocks == nil {
+			continue
+		}
+		r := rootFunc(f)
+		if r.Signature.Recv() == nil || !typeIsNamed(r.Signature.Recv().Type(), pkgKmsV2, "Builder") {
+			continue
+		}
+		allInstrs(f, func(i ssa.Instruction) {
+			cv, ok := i.(*ssa.Call)
+			if !ok || cv.Call.IsInvoke() || cv.Call.StaticCallee() != nil {
+				return
+			}
+			if _, fld, isF := fieldAccess(cv.Call.Value); !isF || fld != "factory" {
+				return
+			}
+			n++
+			c.FuncsAnalysed[shortName(f)] = true
+			// the config argument: a load of a local copy
+			var slot *ssa.Alloc
+			if ld, isL := cv.Call.Args[0].(*ssa.UnOp); isL {
+				slot, _ = ld.X.(*ssa.Alloc)
+			}
+			construct := trimPkgDirs(shortName(f)) + "/factory(cfg)"
+			if slot == nil {
+				c.undecided(construct, u.ipos(i), "the config handed to the factory is not a local copy")
+				return
+			}
+			// find the store that initialises the copy, then require a Region store on every path from it to the call
+			var init ssa.Instruction
+			for _, rr := range *slot.Referrers() {
+				if st, isS := rr.(*ssa.Store); isS && st.Addr == ssa.Value(slot) && instrDominates(st, cv) {
+					init = st
+				}
+			}
+			if init == nil {
+				c.undecided(construct, u.ipos(i), "no initialisation of the config copy found")
+				return
+			}
+			var regionVal ssa.Value
+			found, _ := pathSearch(init, func(j ssa.Instruction) pathAction {
+				if st, isS := j.(*ssa.Store); isS {
+					if fa, isFA := st.Addr.(*ssa.FieldAddr); isFA && fa.X == ssa.Value(slot) && fieldName(fa.X.Type(), fa.Field) == "Region" {
+						regionVal = st.Val
+						return pathStop
+					}
+				}
+				if j == ssa.Instruction(cv) {
+					return pathFound
+				}
+				return pathContinue
+			}, nil)
+			if found {
+				c.bad(construct, u.ipos(i), "a path reaches the client factory without cfg.Region having been set to this entry's region: a region pinned in a caller-supplied config is then used for every regional client — the envelope gets entries only from that one endpoint and no other region can ever unwrap")
+				return
+			}
+			// the same value becomes the client's Region
+			same := false
+			allInstrs(f, func(j ssa.Instruction) {
+				if st, isS := j.(*ssa.Store); isS {
+					if fa, isFA := st.Addr.(*ssa.FieldAddr); isFA && fieldName(fa.X.Type(), fa.Field) == "Region" && namedTypeName(fa.X.Type()) == "regionalClient" && st.Val == regionVal {
+						same = true
+					}
+				}
+			})
+			c.check(same, construct, u.ipos(i), "cfg.Region = region on every path; the same region names the client", "the region written into the client's config is not the region the client is registered under")
+		})
+	}
+	if n == 0 {
+		c.bad("kms-v2.Builder/factory-call", "", "no client factory call found in the aws-v2 Builder")
+	}
+}
